@@ -473,6 +473,7 @@ impl Iterator for Lexer {
                     };
 
                     // Ensure that the next character is the closing quote
+                    let last = self.get_pos();
                     self.consume_char();
                     if let Some(eq) = self.current() {
                         // Return the character
@@ -488,13 +489,13 @@ impl Iterator for Lexer {
                             )));
                         }
 
-                        // The character is unclosed
-                        let end = self.get_pos();
+                        // The character is unclosed: what follows (maybe
+                        // the end of the line) is not part of it
                         return Some(self.invalid_string(
                             c.to_string(),
                             StringLexErrorType::Unclosed,
                             start,
-                            end,
+                            last,
                         ));
                     }
                 }
